@@ -154,6 +154,9 @@ def check_C16():
                 if out.get("k") not in ("ok", "skip"):
                     embeds.append(text in out.get("m", ""))
             bd = m["bound_dbg"]
+            # the text under other formatter states (precision, width, sign, zero padding) still names the declared bound in full
+            for r_ in m.get("renderings", []):
+                embeds.append(re.search(r"(?<![\w.\-])" + re.escape(bd) + r"(?![\w])", r_) is not None if bd else True)
             names_bound = re.search(r"(?<![\w.\-])" + re.escape(bd) + r"(?![\w])", text) is not None
             ev = {"d": did, "fam": d["fam"], "kind": kind, "rel": stated_relation(text),
                   "names_type": re.search(r"\bNt\b", text) is not None, "names_bound": names_bound,
